@@ -193,7 +193,12 @@ func genScenario(r *hutil.Rng, stream string) Scenario {
 	}
 	for _, t := range autos {
 		if r.Chance(5, 6) {
-			sc.Ops = append(sc.Ops, Op{K: "p2", Target: t, Commit: r.Chance(2, 3), Stranger: r.Chance(1, 3)})
+			p := Op{K: "p2", Target: t, Commit: r.Chance(2, 3), Stranger: r.Chance(1, 3)}
+			if !p.Stranger && r.Chance(1, 5) {
+				// the request lands on a process that does not hold the connection; the holder stays connected
+				sc.Ops = append(sc.Ops, Op{K: "away", Target: t})
+			}
+			sc.Ops = append(sc.Ops, p)
 		}
 	}
 	if hostile {
@@ -218,6 +223,8 @@ func genScenario(r *hutil.Rng, stream string) Scenario {
 	for i := 0; i < nf; i++ {
 		f := Fault{Kind: kinds[r.Intn(len(kinds))], Nth: r.Intn(na + 2)}
 		switch x := r.Intn(20); {
+		case x >= 17:
+			f.Err = "rbonly" // a rollback-only branch at XA END; a plain failure for the other commands
 		case x < 7:
 			f.Err = "badconn"
 		case x < 9:
@@ -391,6 +398,32 @@ func enumCheck() []Scenario {
 	return out
 }
 
+// phase two on a process that never saw phase one while the holder is still connected (both server
+// families, commit and rollback), and rollback-only branches at XA END: enumerated
+func enumAway() []Scenario {
+	var out []Scenario
+	x := []string{"10.0.0.7:8091:2612345678901234567", "10.0.0.9:8091:77"}
+	bs := []int64{2612345678901234568, 2612345678901234569}
+	mk := func(ver string, ops []Op, fs ...Fault) Scenario {
+		return Scenario{Version: ver, Xids: x, Branches: bs, Refuse: []int{0, 0}, Stream: "clean", Ops: ops, Faults: fs}
+	}
+	for _, ver := range []string{"5.7.30", "8.0.28", "8.0.30"} {
+		for _, c := range []bool{true, false} {
+			out = append(out, mk(ver, []Op{{K: "auto"}, {K: "away", Target: 0}, {K: "p2", Target: 0, Commit: c}}))
+			out = append(out, mk(ver, []Op{{K: "auto"}, {K: "auto", G: 1}, {K: "away", Target: 1}, {K: "p2", Target: 1, Commit: c},
+				{K: "p2", Target: 0, Commit: !c}}))
+		}
+		rb := Fault{Kind: "END", Nth: 0, Err: "rbonly"}
+		out = append(out, mk(ver, []Op{{K: "auto"}, {K: "p2", Target: 0, Commit: false}}, rb))
+		out = append(out, mk(ver, []Op{{K: "auto"}, {K: "auto", G: 1, Reuse: true, Target: 0}, {K: "p2", Target: 1, Commit: true}}, rb))
+		out = append(out, mk(ver, []Op{{K: "auto"}, {K: "auto", G: 1, Reuse: true, Target: 0}}, Fault{Kind: "STMT", Nth: 0}, rb))
+		out = append(out, mk(ver, []Op{{K: "auto"}}, rb, Fault{Kind: "END", Nth: 1}))
+		out = append(out, mk(ver, []Op{{K: "auto"}}, rb, Fault{Kind: "ROLLBACK", Nth: 0}))
+		out = append(out, mk(ver, []Op{{K: "auto", Db: true}, {K: "retry"}, {K: "retry"}, {K: "p2", Target: 0, Commit: false}}, rb))
+	}
+	return out
+}
+
 func findingScenarios(r *hutil.Rng) []Scenario {
 	// same histories as the committed replays of the findings, other identifiers: the driver requires
 	// them to do exactly what the replays are recorded to do (oracle messages, command/result
@@ -512,6 +545,7 @@ func Run(args map[string]string) {
 		scs = append(scs, enumPool()...)
 		scs = append(scs, enumLongXid()...)
 		scs = append(scs, enumCheck()...)
+		scs = append(scs, enumAway()...)
 		rc := r.Fork(1)
 		for i := 0; i < n; i++ {
 			scs = append(scs, genScenario(rc, "clean"))
